@@ -1,6 +1,7 @@
 package eng
 
 import (
+	"os"
 	"fmt"
 	"math/big"
 	"sort"
@@ -351,6 +352,9 @@ func InstantiateSeeded(asserts []*Term, rounds int, capPerQuant int, seedRoots i
 		for _, q := range qs {
 			body := q.Args[0]
 			if strictInst {
+				if os.Getenv("VP_DEBUG_INST") != "" {
+					fmt.Printf("INST round=%d quant=%d bound=%d sels=%d tuples=%d\n", r, q.id, len(q.Bound), len(ic.sels), len(strictTuples(q, ic.sels, byKey, ic.ground, capPerQuant)))
+				}
 				for _, tup := range strictTuples(q, ic.sels, byKey, ic.ground, capPerQuant) {
 					m := map[*Term]*Term{}
 					var kt *Term = True
